@@ -1009,6 +1009,17 @@ impl FromStr for Duration {
             return Err(TemporalError::range().with_message("Duration string has no components."));
         }
 
+        // At most nine fractional digits; a longer fraction must not be dropped silently.
+        let fraction = match parse_record.time {
+            Some(TimeDurationRecord::Hours { fraction, .. })
+            | Some(TimeDurationRecord::Minutes { fraction, .. })
+            | Some(TimeDurationRecord::Seconds { fraction, .. }) => fraction,
+            None => None,
+        };
+        if fraction.is_some_and(|fraction| fraction.to_nanoseconds().is_none()) {
+            return Err(TemporalError::range().with_message("fraction exceeds nine digits."));
+        }
+
         let (hours, minutes, seconds, millis, micros, nanos) = match parse_record.time {
             Some(TimeDurationRecord::Hours { hours, fraction }) => {
                 let unadjusted_fraction =
